@@ -270,6 +270,8 @@ def units():
         u["kind"] = "proof (command id enumerated from the public header; datasize, data, handle state symbolic)" if nm == val \
             else "enumerated(sample of undefined command ids)"
         u["backend"] = "kissat"
+        if nm == "SFC_FILE_TRUNCATE":
+            u["props"] = ["C17", "C09", "C11", "C12", "C08"]
         if nm in ("SFC_SET_VBR_ENCODING_QUALITY", "SFC_SET_OGG_PAGE_LATENCY_MS"):
             u["enforce_rec"] = True
         if nm in ("SFC_GET_CHANNEL_MAP_INFO", "SFC_SET_CHANNEL_MAP_INFO", "SFC_SET_ADD_PEAK_CHUNK", "SFC_CALC_MAX_ALL_CHANNELS",
